@@ -238,18 +238,21 @@ FUNCTIONS.update({
     # entry point of a spawned greenlet: only the shared-state invariant and ownership of the
     # connection may be assumed -- not that the waiter it was spawned for is still there
     requires=['allocated(sink)', 'sink in self.g_lent', 'is_real_sink(sink)'],
-    ensures=[],
+    # unless the connection went to a waiter (whose downstream processing is arbitrary), the pool is consistent
+    # again when the greenlet ends: in particular the connection is not both cached and still counted as lent
+    ensures=['implies(not g_handed, PoolInv(self))'],
     modifies=['*'], allocates='any', guar=[],
     loops={0: dict(invariant=['PoolInv(self)', 'sink in self.g_lent'], allocates='any',
                    modifies=['deque[tuple[ClientMessageSinkStack,Message,any,any]]'])},
     ghost=[
       # FIFO: a waiter is passed over only if its call has already completed (drained stack)
+      {'before': 'while any(self._waiters):', 'do': ['g_handed = False']},
       {'before': 'continue', 'do': ['prove(len(sink_stack._stack) == 0, "skips-only-completed-waiters")']},
       {'before': 'self._Release(sink)', 'do': ['prove(len(self._waiters) == 0 and PoolInv(self) and (sink in self.g_lent), "released-when-nobody-waits")']},
       {'before': 'sink.AsyncProcessRequest(sink_stack, msg, stream, headers)', 'do': [
         # the connection stays lent and goes to a waiter whose call is still pending
         'prove(PoolInv(self) and (sink in self.g_lent), "capacity-conserved-when-handing-over")',
-        'prove(len(sink_stack._stack) >= 1, "waiter-still-pending")']},
+        'prove(len(sink_stack._stack) >= 1, "waiter-still-pending")', 'g_handed = True']},
     ],
     props=['C07', 'C12'],
   ),
